@@ -339,7 +339,7 @@ pub fn run(run: &Arc<Run>) {
     let levels = level_grid(seed, run.cfg.by(4, 8));
     run.set_rule(format!(
         "exhaustive over 0 <= n <= {nmax}, 0 <= k <= n+1, {nl} levels (grid incl. dyadic levels and levels < 1/2) x 3 kinds, for ci, ci_wilson, ci_z_normal, Stats::new(n,k).ci; ratio and data front-ends (ci_true, ci_if, Stats::from_iter/extend/extend_if/add_*) on a rotating subset (all k for n <= 30..40); \
-         sampled (n,k) log-uniformly up to 1e9. Oracle: cancellation-free roots of the score quadratic with own normal quantile (1e-12 abs) + residual test; domain oracle on the integer counts; Wald closed form (1e-13 rel). \
+         sampled (n,k) log-uniformly up to 1e9 (3 in 4) and up to 2^62 (1 in 4). Oracle: cancellation-free roots of the score quadratic with own normal quantile (1e-12 abs) + residual test; domain oracle on the integer counts; Wald closed form (1e-13 rel). \
          non-trivial = admissible (n,k) (2 <= k <= n-2); distinct = distinct (n,k).",
         nmax = nmax,
         nl = levels.len()
@@ -374,7 +374,9 @@ pub fn run(run: &Arc<Run>) {
     let nsamp = run.cfg.by(20_000u64, 400_000);
     run.par(nsamp, |i, l| {
         let mut r = Rng::from(&[seed, 0xc02, i]);
-        let n = (r.uniform((nmax as f64).ln(), (1e9f64).ln())).exp() as usize;
+        // three in four log-uniformly up to 1e9; one in four beyond, up to 2^62 (counts of a long-running
+        // service: k*(n-k) exceeds 2^64 and n exceeds 2^53 there)
+        let n = if i % 4 == 3 { (r.uniform((1e9f64).ln(), (4.6e18f64).ln())).exp() as usize } else { (r.uniform((nmax as f64).ln(), (1e9f64).ln())).exp() as usize };
         let k = match r.below(6) {
             0 => r.below(12) as usize,
             1 => n - r.below(12).min(n as u64) as usize,
@@ -387,7 +389,11 @@ pub fn run(run: &Arc<Run>) {
         if k >= 2 && n >= k + 2 {
             l.nontrivial(mix(&[n as u64, k as u64, 2]));
             l.count("sampled beyond exhaustive bound");
-            if i % 3 == 0 {
+            if n > 1 << 32 {
+                l.count("sampled population beyond 2^32");
+            }
+            // (the ratio k/n determines k only while k/n*n rounds back to k)
+            if i % 3 == 0 && n <= 1 << 40 {
                 judge_ratio(n, k, kind, level, &|| json!({"what": "ratio", "n": n, "k": k, "kind": kind, "level": level}), l);
             }
         }
@@ -409,6 +415,7 @@ pub fn run(run: &Arc<Run>) {
         "ratio front-end compared",
         "wilson:one-sided-level<1/2 (signed quantile: finite end is the opposite root)",
         "sampled beyond exhaustive bound",
+        "sampled population beyond 2^32",
         "inadmissible (n,k) visited",
     ]);
 }
